@@ -366,10 +366,10 @@ theorem C14_monotone_partial (o : DOpts) (ho : OptsOk o) (env : CoerceEnv) :
     rw [compileF, compileCF]
     exact All2.cons ⟨rfl, iht hs.1.2⟩ (ihfs hs.2)
 
-/-- the full statement fails on the pinned tree: a `Union[int, List[str]]` accepts `[]` strictly and
-    crashes (`int([])` → `TypeError`) under coercion (row 39) -/
-theorem C14_not_monotone_union :
+/-- the witness of row 39 (`Union[int, List[str]]`, `[]`: `int([])` raised `TypeError` under coercion on the
+    pinned tree) after the repair of the coercer: accepted in both modes -/
+theorem C14_union_witness_repaired :
     (deserialize {} {} (.union [.int, .list .str]) (.list [])).isOk = true
-    ∧ (deserializeC {} {} {} (.union [.int, .list .str]) (.list [])).isCrash = true := by decide +kernel
+    ∧ (deserializeC {} {} {} (.union [.int, .list .str]) (.list [])).isOk = true := by decide +kernel
 
 end Api
